@@ -19,25 +19,30 @@ pub const KW: usize = 32;
 #[cfg(not(feature = "kw32"))]
 pub const KW: usize = 6;
 
-#[cfg(feature = "vw96")]
+#[cfg(feature = "vw128")]
+pub const VW: usize = 128;
+#[cfg(all(feature = "vw96", not(feature = "vw128")))]
 pub const VW: usize = 96;
-#[cfg(all(feature = "vw48", not(feature = "vw96")))]
+#[cfg(all(feature = "vw48", not(any(feature = "vw96", feature = "vw128"))))]
 pub const VW: usize = 48;
-#[cfg(all(feature = "vw24", not(any(feature = "vw48", feature = "vw96"))))]
+#[cfg(all(feature = "vw24", not(any(feature = "vw48", feature = "vw96", feature = "vw128"))))]
 pub const VW: usize = 24;
-#[cfg(not(any(feature = "vw24", feature = "vw48", feature = "vw96")))]
+#[cfg(not(any(feature = "vw24", feature = "vw48", feature = "vw96", feature = "vw128")))]
 pub const VW: usize = 12;
 
-/// capacity of Vec / Map (cap21 = one more than the documented maxima of 20 of the RWA registries, C20)
-#[cfg(feature = "cap21")]
+/// capacity of Vec / Map (cap21 = one more than the documented maxima of 20 of the RWA registries, cap100 = one
+/// full token-binder bucket; C20)
+#[cfg(feature = "cap100")]
+pub const CAP: usize = 100;
+#[cfg(all(feature = "cap21", not(feature = "cap100")))]
 pub const CAP: usize = 21;
-#[cfg(all(feature = "cap8", not(feature = "cap21")))]
+#[cfg(all(feature = "cap8", not(any(feature = "cap21", feature = "cap100"))))]
 pub const CAP: usize = 8;
-#[cfg(all(feature = "cap3", not(any(feature = "cap8", feature = "cap21"))))]
+#[cfg(all(feature = "cap3", not(any(feature = "cap8", feature = "cap21", feature = "cap100"))))]
 pub const CAP: usize = 3;
-#[cfg(all(feature = "cap2", not(any(feature = "cap3", feature = "cap8", feature = "cap21"))))]
+#[cfg(all(feature = "cap2", not(any(feature = "cap3", feature = "cap8", feature = "cap21", feature = "cap100"))))]
 pub const CAP: usize = 2;
-#[cfg(not(any(feature = "cap2", feature = "cap3", feature = "cap8", feature = "cap21")))]
+#[cfg(not(any(feature = "cap2", feature = "cap3", feature = "cap8", feature = "cap21", feature = "cap100")))]
 pub const CAP: usize = 4;
 
 /// capacity (bytes) of Bytes / String; multiple of 8
@@ -781,8 +786,50 @@ pub fn preset_call<R: Flat>(i: usize, failed: bool, ret: &R) {
 }
 
 // ---------------------------------------------------------------- hash oracle
+/// Feature `hashack`: the SAME injective function, realised as a call log with pairwise (Ackermann) constraints
+/// instead of a look-up table: every call appends one record with an arbitrary digest constrained by
+/// "equal (kind, length, input) <-> equal digest" against every earlier record. No early return, so the
+/// number of records stays a constant along straight-line code (all table accesses at concrete indices),
+/// which is far cheaper for the solver when many hashes of symbolic data are chained (Merkle trees).
+/// The capacity `NH` then bounds the number of CALLS, not of distinct inputs. The constraint is always
+/// satisfiable (take the digest of an earlier equal input, else a digest not handed out before).
+#[cfg(feature = "hashack")]
+pub fn hash_oracle(kind: u8, len: u32, inp: &[u64; HW]) -> [u64; 4] {
+    let w = world();
+    if w.n_hashes as usize >= NH {
+        overflow()
+    }
+    let out = [arb_u64(), arb_u64(), arb_u64(), arb_u64()];
+    let mut i = 0;
+    while i < NH {
+        if (i as u32) < w.n_hashes {
+            let h = &w.hashes[i];
+            let mut same_in = h.kind == kind && h.len == len;
+            let mut k = 0;
+            while k < HW {
+                same_in &= h.inp[k] == inp[k];
+                k += 1;
+            }
+            let o = &h.out;
+            let same_out = o[0] == out[0] && o[1] == out[1] && o[2] == out[2] && o[3] == out[3];
+            assume(same_in == same_out);
+        }
+        i += 1;
+    }
+    let rec = HashRec { kind, len, inp: *inp, out };
+    let mut i = 0;
+    while i < NH {
+        if i as u32 == w.n_hashes {
+            w.hashes[i] = rec;
+        }
+        i += 1;
+    }
+    w.n_hashes += 1;
+    out
+}
 /// Uninterpreted hash: equal (kind, input) -> equal output; a new input gets a fresh output
 /// assumed different from every earlier output (collision resistance, across kinds too).
+#[cfg(not(feature = "hashack"))]
 pub fn hash_oracle(kind: u8, len: u32, inp: &[u64; HW]) -> [u64; 4] {
     let w = world();
     let mut i = 0;
